@@ -3,6 +3,7 @@ from ..core import rng_for, rand_digits, M64, ndig
 from ..arith import STYPES
 from ..oracles import cmd_toprim, cmd_tof, cmd_fromprim, cmd_fromf, cmd_frombool, PRIMS
 
+THOROUGH_SEEDS = 4   # the thorough tier repeats its staged workload over this many derived seeds
 RULE = ('integers: for each of the 12 primitive types values within +-2 of MIN, MAX, 0 and of 2^64 / 2^128, through to_*, '
         'TryFrom<&Big>, TryFrom<Big> (the error must carry the original back), From / from_* / ToBigInt / ToBigUint / TryFrom of '
         'every primitive incl. MIN; floats: for p in {24,53} values top_p*2^k + tail with tail in {0, half-eps, half, half+eps} '
